@@ -386,3 +386,13 @@ package sender
 //@   fresh
 //@   ensures[C13] [one-rule-per-line] err == nil ==> result != nil && len(result.Filters) == len(rules)
 //@   loop[C13] 0: invariant [one-rule-per-earlier-line] -1 <= rangeindex && len(l.Filters) == rangeindex + 1
+
+// ---------------------------------------------------------------- C14/C15/C01: listed means sent
+// Files are requested by their index in the list, so the sender's own list
+// and the entries it puts on the wire have to be the same sequence: a walk
+// step that succeeds appends to s.fileList.Files exactly when it sends an entry.
+//@ ghost wfSent: int
+//@ func (*sender.scopedWalker).walkFn
+//@   at[C15,C14] (*rsyncopts.Options).DebugGTE@1: set ghost.wfSent = 0
+//@   at[C15,C14] (*rsyncwire.Conn).WriteString: set ghost.wfSent = 1
+//@   ensures[C15,C14] [listed-exactly-when-sent] ret == nil ==> len(s.fileList.Files) == old(len(s.fileList.Files)) + ghost.wfSent
